@@ -217,6 +217,26 @@ func rPlan(c rCase) (reads []rRead, frames [][]*ref.Frame) {
 			cur = append(cur, p.b...)
 		}
 		flush(at, cur)
+	case c.Mode == "split" || c.Mode == "pairs":
+		// split: every frame cut in the middle (a read = tail of one frame + head of the next);
+		// pairs: two frames per read. Time advances are ignored in these modes (C05 only).
+		var all []byte
+		var cuts []int
+		for i, p := range ps {
+			if c.Mode == "split" {
+				cuts = append(cuts, len(all)+len(p.b)/2)
+			} else if i%2 == 1 {
+				cuts = append(cuts, len(all)+len(p.b))
+			}
+			all = append(all, p.b...)
+		}
+		pos := 0
+		for _, cu := range append(cuts, len(all)) {
+			if cu > pos {
+				flush(0, all[pos:cu])
+				pos = cu
+			}
+		}
 	default: // cut:<offset>: everything (times ignored beyond the first) in two reads
 		var off int
 		fmt.Sscanf(c.Mode, "cut:%d", &off)
@@ -531,6 +551,10 @@ func rSearch(ctx *vc.Ctx, rep *vc.Report, prop string, alpha []rEvent, depth int
 				_, _, _, key, _ := rEval(c)
 				run(h, "per-frame", false)
 				run(h, "coalesced", false)
+				if prop == "C05" {
+					run(h, "split", false)
+					run(h, "pairs", false)
+				}
 				if d <= cutDepth {
 					L := 0
 					for _, i := range h {
@@ -589,7 +613,7 @@ func rReplay(raw json.RawMessage) string {
 func init() {
 	vc.Register(&vc.Check{
 		ID: "C05", Level: "model_checking",
-		Rule: "breadth-first search over ALL histories up to depth 5 (thorough 6) of the events {A1,A2,A3 (0x0801, N=3, unequal bodies, one escape-dense), B1,B2 (0x0704, N=2), heartbeat, location, A#0, A#4 (impossible numbers), C#2 (no transfer of that ID), D1/1 (N=1)} on the REAL reassembler, each history fed one frame per read, all frames coalesced, under EVERY 1-cut for depth <= 3, and through the real connection for depth <= 3 (handlers must see complete messages only, one reply each); plus N=255 transfers in forward, reverse and interleaved order. " +
+		Rule: "breadth-first search over ALL histories up to depth 5 (thorough 6) of the events {A1,A2,A3 (0x0801, N=3, unequal bodies, one escape-dense), B1,B2 (0x0704, N=2), heartbeat, location, A#0, A#4 (impossible numbers), C#2 (no transfer of that ID), D1/1 (N=1)} on the REAL reassembler, each history fed one frame per read, all frames coalesced, every frame split in the middle, two frames per read, under EVERY 1-cut for depth <= 3, and through the real connection for depth <= 3 (handlers must see complete messages only, one reply each); plus N=255 transfers in forward, reverse and interleaved order. " +
 			"Histories that repeat packet 1 of an active transfer leave the property's precondition and are skipped. states = canonical reassembler states (slot occupancy, buffered bytes), transitions = reads. Non-trivial = history that completes at least one transfer",
 		Assumptions: []string{"reference reassembler in checks/c05.go", "accessor VerifParser (tag verif) for the extractor-level search; connection-level replays use no accessor"},
 		Run: func(ctx *vc.Ctx, rep *vc.Report) {
